@@ -218,6 +218,13 @@ mod dictionary {
                 self.bytes += 1;
                 output.push([*b].as_slice())
             } else {
+                // A literal whose first byte is an assigned tag would read back as that dictionary entry.
+                assert!(
+                    bytes
+                        .first()
+                        .map_or(true, |tag| self.decode.get((*tag).into()).is_none()),
+                    "DictionaryCodec cannot represent a literal that starts with an assigned tag"
+                );
                 self.bytes += bytes.len();
                 output.push(bytes)
             };
